@@ -1018,3 +1018,17 @@ func neverNilError(f *ssa.Function, depth int) bool {
 	neverNilMemo[f] = 1
 	return true
 }
+
+// cmpConstRight returns the comparison with a constant operand on the right-hand side (`0 > x` is returned as
+// x, <, 0), so that a rule recognising `x OP k` does not depend on the order in which the source writes the operands.
+func cmpConstRight(bo *ssa.BinOp) (ssa.Value, token.Token, ssa.Value) {
+	if _, ok := mirrorOp[bo.Op]; !ok {
+		return bo.X, bo.Op, bo.Y
+	}
+	_, xc := bo.X.(*ssa.Const)
+	_, yc := bo.Y.(*ssa.Const)
+	if xc && !yc {
+		return bo.Y, mirrorOp[bo.Op], bo.X
+	}
+	return bo.X, bo.Op, bo.Y
+}
